@@ -23,13 +23,16 @@ Definition set_range (fl : list Z) (i count v : Z) : res (list Z) :=
   if (0 <=? i) && (i <=? e) && (e <=? blen fl)
   then Ok (firstn (Z.to_nat i) fl ++ repeat v (Z.to_nat count) ++ skipn (Z.to_nat e) fl) else Panic.
 
-(* the `while let Some(flag_bits) = flags_iter.next()` loop; state (i, read_flags_bytes, flags) *)
+(* the `while i < n_points { let flag_bits = flags_iter.next().ok_or(OutOfBounds)?; .. }` loop (as of /repo 6f0a45e);
+   state (i, read_flags_bytes, flags).  Entered only with i < n (the guard is tested by the caller for the first
+   iteration and by `if i' =? n` after each one, i' <= n always); running out of flag bytes is an error.
+   Fuel = number of flag bytes: every iteration consumes at least one, so fuel exhaustion coincides with fd = []. *)
 Fixpoint flag_loop (fuel : nat) (n : Z) (fd : list Z) (i rfb : Z) (fl : list Z) : res (Z * list Z) :=
   match fuel with
-  | O => Ok (rfb, fl)
+  | O => Err OutOfBounds
   | S k =>
       match fd with
-      | [] => Ok (rfb, fl)
+      | [] => Err OutOfBounds
       | b :: rest =>
           rdo rfb <- add_chk rfb 1 ;;
           if bit b 8 then
@@ -78,9 +81,9 @@ Fixpoint zip3 (a b c : list Z) : list Z :=
 Definition read_points_fast (n : Z) (data fl0 : list Z) : res (list Z) :=
   if negb (blen fl0 =? n) then Err InvalidArrayLen else
   let c := cursor0 data in
-  let '(c, r) := c_read_array (Z.min n (c_remaining_bytes c)) 1 c in
+  let '(c, r) := c_read_array (c_remaining_bytes c) 1 c in
   rdo fd <- r ;;
-  rdo st <- flag_loop (length fd) n fd 0 0 fl0 ;;
+  rdo st <- (if 0 <? n then flag_loop (length fd) n fd 0 0 fl0 else Ok (0, fl0)) ;;
   let c := c_advance_by (fst st) (cursor0 data) in
   rdo xs <- coord_loop 2 16 (snd st) c 0 ;;
   rdo ys <- coord_loop 4 32 (snd st) (snd xs) 0 ;;
